@@ -282,6 +282,8 @@ func (g *gen) addProc(j int, sinkless *bool) {
 		if p.Taggers && g.n(3) == 1 {
 			// route the stream through a tagging component
 			tn := Node{Name: fmt.Sprintf("tag%d", len(w.Nodes)), Kind: KMapToTags, TagKey: fmt.Sprintf("k%d", len(w.Nodes)),
+				// (for some files the map function may return no tag at all)
+				TagSkip: []int{0, 0, 2, 3}[g.n(4)],
 				Ins: []InSpec{{Name: "in", From: []Edge{a.e}}}, Outs: []OutSpec{{Name: "out"}}}
 			w.Nodes = append(w.Nodes, tn)
 			a = availStream{e: Edge{len(w.Nodes) - 1, "out"}, n: a.n, ordered: a.ordered, origin: a.origin}
